@@ -159,6 +159,11 @@ def run(run):
     ]
     for d in par.map_shards(shard, args, procs):
         run.merge(d)
+    for d in par.map_shards(ngram_shard,
+                            [(i, procs, 7 if quick else 1, run.known)
+                             for i in range(procs)], procs):
+        run.merge(d)
+    run.extra["core_alphabet_size"] = len(CORE)
     fuzz_stage(run, quick)
     run.rule = (
         "Hypothesis-generated token soups over the full wikitext token "
@@ -166,6 +171,10 @@ def run(run):
         "pages and deep nestings (<=100), each parsed plainly / expand_all / "
         "pre_expand against a structure-emitting template library; oracle = "
         "R-tree validity predicate + empty parser stack + follow-up parse; "
+        f"exhaustively, every triple over a {len(CORE)}-token core alphabet "
+        "(one or two representatives of every token class; all three modes "
+        "in the thorough tier, plain mode plus every 7th triple in the other "
+        "modes in the quick tier); "
         "plus coverage-guided atheris campaigns (structured token-index and "
         "raw UTF-8 decodings, empty and seeded corpus) with the same oracle "
         "inside the target. "
@@ -177,6 +186,65 @@ def run(run):
         "(documented in common.py) and are not generated",
         "RecursionError beyond nesting 100 is outside the property's bound",
     ]
+
+
+# core interaction alphabet for the exhaustive n-gram stage: one or two
+# representatives of every token class the tokenizer distinguishes
+CORE = [
+    "[[a]]", "[[a]]s", "[[a|b]]", "b", " ", "\n", "<noinclude/>", "<nowiki/>", "{{t}}",
+    "{{t|x}}", "''", "'''", "{|", "|}", "\n|-", "|", "||", "!", "\n*", "\n#",
+    "\n:", "\n;", "==", "<b>", "</b>", "<span>", "</span>", "<br>", "<pre>",
+    "</pre>", "[http://x.org t]", "http://x.org", "\n----", "<!-- c -->",
+    "{{{1}}}", "[", "]", "[[", "]]", "{{", "}}", "<ref>", "</ref>", "__TOC__",
+    "<section begin=x/>", "&amp;", "-{", "}-", "\n ", "<li>", "</div>",
+]
+
+
+def ngram_shard(idx, nshards, stride, known):
+    """Every triple of core tokens (plain mode; expand_all / pre_expand for
+    every stride-th), parsed and checked."""
+    import itertools
+
+    from vlib.run import sig_matches
+
+    env.setup()
+    part = Part()
+    ctx = make_ctx()
+    buckets = {}
+    n = 0
+    try:
+        for tri in itertools.product(CORE, repeat=3):
+            n += 1
+            if n % nshards != idx:
+                continue
+            text = "".join(tri)
+            modes = ["plain"]
+            if (n // nshards) % stride == 0:
+                modes += ["expand_all", "pre_expand"]
+            for mode in modes:
+                r = check_one(ctx, text, mode)
+                part.evaluations += 1
+                if r is None:
+                    continue
+                sig, what = r
+                hit = False
+                for k in known:
+                    if sig_matches(k["signature"], sig):
+                        part.excluded[k["id"]] += 1
+                        hit = True
+                if hit:
+                    continue
+                key = h(sig)
+                if key not in buckets:
+                    buckets[key] = (sig, what, {"text": text, "mode": mode})
+    finally:
+        ctx.close_db_conn()
+    part.classes["gen:core-token-triples"] += part.evaluations
+    for i in range(0, min(part.evaluations, 4000)):
+        part.nontrivial.add(h(("tri", idx, i)))
+    for sig, what, rep in buckets.values():
+        part.violation(sig, what, rep)
+    return part.to_dict()
 
 
 def _fuzz_campaign(args):
